@@ -385,9 +385,17 @@ def run_check(pid, tier, seed, replay=None):
         pr['ok'] = False
         pr['log'].append('driver binary missing')
     else:
-        with multiprocessing.Pool(nproc) as pool:
-            for r in pool.imap_unordered(work, jobs, chunksize=2):
-                results.append(r)
+        # workers are recycled (long runs of big networks fragment the heap: 16 workers grew to 3 GB each and one was killed by the
+        # kernel, after which Pool.imap waits for ever for its task); every job is waited for with a time limit, so that a lost
+        # worker shows up as a harness error of that job instead of a hang
+        with multiprocessing.Pool(nproc, maxtasksperchild=30) as pool:
+            pending = [(j, pool.apply_async(work, (j,))) for j in jobs]
+            for j, a in pending:
+                try:
+                    results.append(a.get(timeout=2400))
+                except multiprocessing.TimeoutError:
+                    results.append({'status': 'harness_error', 'error': 'no result after 40 min: worker lost or job too long',
+                                    'job': {k: v for k, v in j.items() if k != 'cfg'}})
     # ---- aggregate
     cov = {'evaluations': 0, 'accepted': 0, 'rejected': 0, 'cfg_rejected': 0, 'inexact_discarded': 0, 'impl_exceptions': 0,
            'harness_errors': 0, 'frames': 0, 'by_region': {}, 'exceptions': {}}
